@@ -45,7 +45,7 @@ CLAIMED = {
             "frame handed to validate is the decoder's. Frame-level rejection (all 256 first bytes x length classes, close bodies of every "
             "UTF-8 class, every sequencing history to length 4/5 over {T0,T1,B0,B1,C0,C1,ping,pong}) is tied by correspondence and judged by "
             "Spec.frameLegal on the real outputs.", "", "DESIGN.md §6 C05"),
-    "C06": ("Lean 4 theorems C06_validate (validator = Unicode Table 3-7 for all byte strings, via generated DFA table, decide +kernel) and C06_message (delivery iff the reassembled payload is well-formed, any fragmentation)" + T_CORR,
+    "C06": ("Lean 4 theorems C06_validate (validator = Unicode Table 3-7 for all byte strings, via generated DFA table, decide +kernel) C06_message (delivery iff the reassembled payload is well-formed, any fragmentation) and C06_validate_scalars (accepted strings = concatenations of shortest-form encodings of scalar values: no overlongs, no surrogates, nothing above U+10FFFF, nothing cut short)" + T_CORR,
             "Proof: `C06_validate : forall bs, validateUtf8 bs = wellFormed bs` over the DFA table regenerated from "
             "_utils.py on every run; the final-state test of _validate_utf8 is a generated fact; C04_reassembly shows validity is judged on "
             "the reassembled payload. Message-level clauses (fragmentation independence, validation off, close reasons) are also tied by the "
